@@ -48,6 +48,16 @@ CLAIMED = {
                  'observed traces (bounded in-progress time after the last request).', 'DESIGN.md §5 C10',
                  'PARTIAL: job_bound refuted by the known finding c03-noresource-reentrancy (orphan commands never timed '
                  'out); fuel-sufficiency of the agenda machine not proved (theorems hold for any fuel).'),
+    'C04': claim('Coq proofs: possible_identifiers = permitted & known & enabled (mapper.filter modelled exactly); for '
+                 'ALL_INSTANCES the chosen target satisfies the eligibility + node-cap statement written from the property '
+                 '(independent node sums over ALL pending starts) under H_own_requests_are_all, through C14\'s '
+                 'result_valid; no instance qualifies <=> nothing sent and FATAL "No resource available"; no duplicate '
+                 'request (stopped processes only, add_commands de-duplication); every recorded process_job decision of '
+                 'the real Starter is compared with the model and judged by the Coq spec on generated concurrent starts.',
+                 'DESIGN.md §5 C04',
+                 'PARTIAL: emission-time eligibility for restricted distributions is checked on generated runs, not proved; '
+                 'known findings c04-single-instance-on-demand-load, c04-cross-application-pending-load, '
+                 'c03-noresource-reentrancy (node cap exceeded / duplicate request).'),
     'C05': claim('Coq proofs: conflict detection iff a managed process runs on >= 2 instances; for each of the six '
                  'strategies the exact stop/restart request set (never outside a conflict), SENICIDE/INFANTICIDE keeper by '
                  'uptime with Python tie-breaking; conflicts cleared after the acknowledgements (via the C11 model); '
